@@ -36,6 +36,29 @@ def run(ctx):
         ctx.notes.append("chunks abandoned after 6 dead children (every one of them is reported): " +
                          ", ".join(f"{r[1]}[{r[2]}..{r[3]})" for r in ABANDONED))
 
+    # ---------------------------------------------------------------- hang verdicts are confirmed by a solitary re-run
+    # The watchdog limits the CPU time of a child that shares the machine with 15 sibling children (and whatever else runs):
+    # under heavy load the slow-but-finite nesting cases have been seen to cross the limit (DESIGN §9.6). A real hang hangs
+    # again when its input is run alone with the same limit, so a hang row is kept only if the solitary run (the --replay
+    # path) reports a hang too; at most 6 distinct inputs are re-run, the others are reported unconfirmed as they are.
+    if not ctx.replay:
+        hang_texts = []
+        for r in F:
+            if r[3] == "hang" and len(r) > 8 and r[8] not in hang_texts:
+                hang_texts.append(r[8])
+        cleared = set()
+        for i, t in enumerate(hang_texts[:6]):
+            f = os.path.join(ctx.run_dir, f"hang-confirm-{i}.gom")
+            open(f, "w", encoding="utf-8").write(vlib.unesc(t))
+            ok2, _ = ctx.gv("c04", ["--file", f], timeout=1800)
+            rows2 = vlib.read_tsv(path) if ok2 and os.path.exists(path) else None
+            if rows2 is not None and not any(r2[0] == "F" and r2[3] in ("hang", "abort") for r2 in rows2):
+                cleared.add(t)
+        if cleared:
+            ctx.notes.append(f"{len(cleared)} hang verdict(s) of the parallel run were not reproduced when the input was run alone "
+                             "with the same CPU-time limit (machine load); they are not reported")
+            F = [r for r in F if not (r[3] == "hang" and len(r) > 8 and r[8] in cleared)]
+
     # ---------------------------------------------------------------- findings
     groups = {}
     for r in F:
